@@ -28,7 +28,14 @@
 
    Named deviations (accepted only when listed in known_findings.txt, see CallFrames.tla):
      Dev_RevertAcrossSuicideLosesStorage   the real state matches the world re-executed with devS
-     Dev_NestedFailVersionGapPanics        the real run panicked exactly where devG predicts it *)
+     Dev_NestedFailVersionGapPanics        the real run panicked exactly where devG predicts it
+     Dev_RevertAcrossSuicideLosesCode      the real run matches the world re-executed with devL: once a frame has been
+                                           reverted across the SELFDESTRUCT of a contract created earlier in the same
+                                           transaction, that contract's code cannot be loaded (calls towards it are refused:
+                                           no code runs, the caller sees 0, nothing changes, the gas passed on returns;
+                                           the final state reports the code as unreadable) - unless the code store held
+                                           the very bytes the creation deposited already (end event of the creation
+                                           frame: cs, read from the store by the tracer) *)
 EXTENDS CallFramesOps, TraceBase, SequencesExt
 CONSTANTS AllowedDev, DepthLimit,
           MaxCodeSize, CreateDataGas,   \* the platform's code deposit rule (params.MaxCodeSize, params.CreateDataGas)
@@ -44,11 +51,14 @@ AllKinds == CallKinds \cup {"create"}
 GLeq(a, b) == a[1] < b[1] \/ (a[1] = b[1] /\ a[2] <= b[2])
 
 \* ------------------------------------------------------------------ re-execution of the observed events
+\* (devL) a call towards an account whose code cannot be loaded: refused before anything happens
+LostCallee(w, e) == e.k # "create" /\ e.to \in CA /\ w.code[e.to] /\ w.lost[e.to]
 \* frame of the machine: entry data + what has been seen of it
 MFrame(w, e, callerCtx, callerRo, den, ceil) ==
   [k |-> e.k, ctx |-> CtxOf(e.k, e.to, callerCtx), from |-> callerCtx, to |-> e.to, ro |-> callerRo \/ e.k = "staticcall", v |-> e.v,
    mark |-> Len(w.jr), den |-> den, hc |-> e.k = "create" \/ (e.to \in CA /\ w.code[e.to]), pre |-> e.to \in Precompiles,
-   ran |-> FALSE, end |-> "", cg |-> e.g, cc |-> e.c, sg |-> 0, eg |-> 0, ec |-> 0, rl |-> 0, ceil |-> ceil]
+   lost |-> LostCallee(w, e),
+   ran |-> FALSE, end |-> "", cg |-> e.g, cc |-> e.c, sg |-> 0, eg |-> 0, ec |-> 0, rl |-> 0, cs |-> FALSE, ceil |-> ceil]
 Bad(m, why) == [m EXCEPT !.ok = FALSE, !.why = why]
 SetTop(m, f) == [m EXCEPT !.fs[Len(m.fs)] = f]
 
@@ -60,7 +70,7 @@ StepCall(m, e) ==
       create == e.k = "create"
       den == (e.k \in {"call", "callcode", "create"} /\ e.v > m.w.bal[cctx]) \/ Len(m.fs) > DepthLimit
       \* (a creation moves its endowment when the init code begins: a collision is refused before)
-      w2 == IF den \/ create \/ e.to \in Precompiles THEN m.w ELSE EnterW(m.w, e.k, cctx, e.to, e.v)
+      w2 == IF den \/ create \/ e.to \in Precompiles \/ LostCallee(m.w, e) THEN m.w ELSE EnterW(m.w, e.k, cctx, e.to, e.v)
       ceil == IF top THEN e.g ELSE IF create THEN e.g - e.c ELSE e.c + (IF e.v > 0 THEN Stipend ELSE 0)
   IN IF e.k \notin AllKinds \/ e.to \notin Addrs \cup Precompiles \/ e.v < 0 THEN Bad(m, "call outside the universe")
      ELSE IF e.to \in Precompiles /\ e.k # "staticcall" THEN Bad(m, "call of a precompile that is not read-only")
@@ -80,6 +90,7 @@ Runs(m, e) ==
   IF m.fs = <<>> THEN "event outside a frame"
   ELSE IF f.den THEN "a denied call ran code"
   ELSE IF ~f.hc THEN "an account without code ran code"
+  ELSE IF f.lost THEN "an account whose code cannot be loaded ran code"
   ELSE IF f.end # "" THEN "event after the frame ended"
   ELSE IF e.ctx # f.ctx THEN "executing account is not the frame's context"
   ELSE IF e.g > f.ceil THEN "gas grew inside a frame"
@@ -129,7 +140,7 @@ StepEnd(m, e) ==
   ELSE IF e.k = "suicide" /\ (f.ro \/ e.to \notin Addrs) THEN Bad(m, "selfdestruct executed inside a read-only frame / outside the universe")
   ELSE IF e.k # "err" /\ e.c > e.g THEN Bad(m, "cost above the gas held")
   ELSE IF e.cf # (f.k = "create") THEN Bad(m, "a creation frame is taken for a call frame or the other way round")
-  ELSE [SetTop(m, [f EXCEPT !.end = e.k, !.eg = e.g, !.ec = e.c, !.rl = e.rl])
+  ELSE [SetTop(m, [f EXCEPT !.end = e.k, !.eg = e.g, !.ec = e.c, !.rl = e.rl, !.cs = e.cs])
           EXCEPT !.w = IF e.k = "suicide" THEN SuicideW(m.w, f.ctx, e.to) ELSE m.w]
 
 \* the code deposit of a creation frame whose init code has ended normally cannot be taken
@@ -141,13 +152,15 @@ StepRet(m, e) ==
       create == f.k = "create"
       flag == IF f.den THEN 0
               ELSE IF ~f.ran THEN (IF f.pre \/ create THEN (IF e.v = 1 THEN 1 ELSE 0)   \* a precompile succeeds or fails; a creation: empty init code / collision
+                                   ELSE IF f.lost THEN 0             \* (devL) the code cannot be loaded: the call is refused
                                    ELSE IF f.hc THEN -1 ELSE 1)      \* an account with code must run; one without succeeds
               ELSE IF f.end \in {"stop", "suicide"} THEN (IF DepositFails(f) THEN 0 ELSE 1)
               ELSE IF f.end \in {"revert", "err"} THEN 0 ELSE -1
       undo == flag = 0 /\ ~f.den /\ f.ran
       gap == undo /\ GapIn(m.w.jr, f.mark)
       w2 == IF undo THEN FailW(m.w, f)
-            ELSE IF create /\ flag = 1 /\ f.ran THEN CreatedW(m.w, f, f.rl > 0)
+            \* (cs: the store holds the deposited bytes already - the new code can be loaded by its hash come what may)
+            ELSE IF create /\ flag = 1 /\ f.ran THEN [CreatedW(m.w, f, f.rl > 0) EXCEPT !.vol[f.to] = ~f.cs]
             ELSE IF create /\ flag = 1 THEN CreatedW(EnterW(m.w, "create", f.from, f.to, f.v), f, FALSE)     \* empty init code
             ELSE m.w
       held == IF n = 1 THEN 0 ELSE IF create THEN f.cg - f.cc - f.sg ELSE f.cg - f.cc    \* what the caller kept
@@ -183,41 +196,51 @@ StepFixed(m, e) == Step([m EXCEPT !.gap = FALSE], e)
 \* (SequencesExt!FoldLeft is evaluated iteratively by its Java override: no deep recursion, no chain of lazy values)
 Fold(m, obs, i, strict) ==
   FoldLeft(LAMBDA acc, e : IF ~acc.ok THEN acc ELSE IF strict THEN Step(acc, e) ELSE StepFixed(acc, e), m, obs)
-M0(devS) == [w |-> World0(devS, FALSE, bal0, stor0), fs |-> <<>>, ok |-> TRUE, gap |-> FALSE, why |-> "", pj |-> <<>>]
+M0(devS, devL) == [w |-> WithDevL(World0(devS, FALSE, bal0, stor0), devL), fs |-> <<>>, ok |-> TRUE, gap |-> FALSE, why |-> "", pj |-> <<>>]
 
 FinMatches(w, fin) ==
   /\ \A a \in Addrs : fin[a].bal = w.bal[a]
   /\ \A c \in CA :        /\ fin[c].dead = w.dead[c]
-                          /\ (fin[c].code = "y") = w.code[c] /\ fin[c].code \in {"y", "n"}
+                          /\ IF w.code[c] /\ w.lost[c] THEN fin[c].code = "ERR"        \* (devL only: never lost otherwise)
+                             ELSE (fin[c].code = "y") = w.code[c] /\ fin[c].code \in {"y", "n"}
                           /\ \A s \in Slots : fin[c][s] = w.stor[c][s]
   /\ fin.nlog = NEv(w, "log")
   /\ fin.nfail \in 0..NEv(w, "fail")      \* the platform MAY record a failure event per failed call (it does today: equality holds)
   /\ fin.ncreate \in 0..NEv(w, "create")  \* ... and a creation record per creation that succeeded and was not undone
 
 \* a run that completed: every event legal, stack empty, real post-state = re-executed world
-Completed(r, devS) ==
-  LET m == Fold(M0(devS), r.obs, 1, FALSE) IN
+Completed(r, devS, devL) ==
+  LET m == Fold(M0(devS, devL), r.obs, 1, FALSE) IN
   /\ m.ok /\ m.fs = <<>> /\ m.pj = <<>> /\ Len(r.obs) >= 2
   /\ FinMatches(m.w, r.fin)
   /\ (r.st = "ok") = (r.obs[Len(r.obs)].v = 1)
 \* a run that panicked: legal up to the panic, and the panic is the one devG predicts - the innermost frame has ended
 \* in revert / error and the journal range it must undo has a version gap; no earlier failing frame had one
-CrashedAtGap(r) ==
-  LET m == Fold(M0(FALSE), r.obs, 1, TRUE)
+CrashedAtGap(r, devL) ==
+  LET m == Fold(M0(FALSE, devL), r.obs, 1, TRUE)
       f == m.fs[Len(m.fs)] IN
   /\ r.crash = GapMsg /\ m.ok /\ ~m.gap /\ m.fs # <<>>
   /\ (f.end \in {"revert", "err"} \/ DepositFails(f)) /\ GapIn(m.w.jr, f.mark)
 
-\* (IF-THEN-ELSE, not a disjunction: a deviation is only consulted when the correct reading does not match)
+\* (IF-THEN-ELSE, not a disjunction: a deviation is only consulted when the correct reading does not match; the two
+\* shallow-undo deviations have one root cause and meet in one run: a contract whose init code wrote storage, destroyed
+\* and restored by a revert, has lost both)
+DevSKey == "Dev_RevertAcrossSuicideLosesStorage"
+DevLKey == "Dev_RevertAcrossSuicideLosesCode"
+DevGKey == "Dev_NestedFailVersionGapPanics"
 RunSandboxed(r) ==
   /\ GLeq(r.left, r.gas)                                    \* never more gas left than supplied
   /\ r.maxd <= DepthLimit
   /\ IF r.crash = ""
-     THEN IF Completed(r, FALSE) THEN TRUE
-          ELSE /\ "Dev_RevertAcrossSuicideLosesStorage" \in AllowedDev /\ Completed(r, TRUE)
-               /\ UseDev("Dev_RevertAcrossSuicideLosesStorage")
-     ELSE /\ "Dev_NestedFailVersionGapPanics" \in AllowedDev /\ CrashedAtGap(r)
-          /\ UseDev("Dev_NestedFailVersionGapPanics")
+     THEN IF Completed(r, FALSE, FALSE) THEN TRUE
+          ELSE IF DevSKey \in AllowedDev /\ Completed(r, TRUE, FALSE) THEN UseDev(DevSKey)
+          ELSE IF DevLKey \in AllowedDev /\ Completed(r, FALSE, TRUE) THEN UseDev(DevLKey)
+          ELSE /\ DevSKey \in AllowedDev /\ DevLKey \in AllowedDev /\ Completed(r, TRUE, TRUE)
+               /\ UseDev(DevSKey) /\ UseDev(DevLKey)
+     ELSE /\ DevGKey \in AllowedDev
+          /\ IF CrashedAtGap(r, FALSE) THEN TRUE
+             ELSE DevLKey \in AllowedDev /\ CrashedAtGap(r, TRUE) /\ UseDev(DevLKey)
+          /\ UseDev(DevGKey)
 
 \* the observed events in the vocabulary of the generator
 ActOf(e) ==
